@@ -157,6 +157,22 @@ pub fn poly_case(cx: &mut Ctx, n: u64, case: &Value) {
         eqf("triangle_area", "Triangle::unsigned_area", tri.unsigned_area(), tri2 / 2.0);
         eqf("triangle_area", "Triangle::to_polygon().unsigned_area", tri.to_polygon().unsigned_area(), tri2 / 2.0);
         eqf("triangle_area", "Triangle::signed_area (stored ccw)", tri.signed_area().abs(), tri2 / 2.0);
+        // triangles that are NOT stored counter-clockwise: only Triangle::new reorders; the tuple constructor and From<[_; 3]> keep
+        // the given order (as do ear-cut / Delaunay triangles), so both orders of the same three vertices are measured
+        if let Some(ts) = case["tri_sign"].as_i64() {
+            let (a0, b0, c0) = (ext.0[0], ext.0[1], ext.0[2]);
+            let exact_sign = ts as f64;       // sign of Cross(a0, b0, c0), computed by TLC
+            for (t, sgn, what) in [(Triangle(a0, b0, c0), exact_sign, "Triangle(a, b, c)"), (Triangle(a0, c0, b0), -exact_sign, "Triangle(a, c, b)"),
+                                   (Triangle::from([c0, b0, a0]), -exact_sign, "Triangle::from([c, b, a])"), (Triangle::from([b0, c0, a0]), exact_sign, "Triangle::from([b, c, a])")] {
+                eqf("triangle_area_any_order", &format!("{what}.unsigned_area"), t.unsigned_area(), tri2 / 2.0);
+                eqf("triangle_area_any_order", &format!("{what}.signed_area"), t.signed_area(), sgn * tri2 / 2.0);
+                eqf("triangle_area_any_order", &format!("{what}.to_polygon().signed_area"), t.to_polygon().signed_area(), sgn * tri2 / 2.0);
+                eqf("triangle_area_any_order", &format!("Geometry::{what}.unsigned_area"), Geometry::Triangle(t).unsigned_area(), tri2 / 2.0);
+                let gct = GeometryCollection::new_from(vec![Geometry::Triangle(t), Geometry::Triangle(Triangle(t.0, t.2, t.1))]);
+                eqf("triangle_area_any_order", &format!("GeometryCollection[{what}, reversed].unsigned_area"), gct.unsigned_area(), tri2);
+                eqf("triangle_area_any_order", &format!("GeometryCollection[{what}, reversed].signed_area"), gct.signed_area(), 0.0);
+            }
+        }
         eqf("rect_area", "Rect::unsigned_area", rect.unsigned_area(), rect2 / 2.0);
         eqf("rect_area", "Rect::signed_area", rect.signed_area(), rect2 / 2.0);
         eqf("rect_area", "Rect::to_polygon().signed_area", rect.to_polygon().signed_area(), rect2 / 2.0);
